@@ -444,7 +444,11 @@ fn run_case(case: &Case) -> String {
         let e = source_error(case, src);
         let borrowed = format!("{}", e);
         let owned = format!("{}", e.into_owned());
-        borrowed == owned
+        // ... and with colours on (the owned copy keeps the colour setting)
+        let ec = source_error(case, src).with_color(true);
+        let borrowed_c = format!("{}", ec);
+        let owned_c = format!("{}", ec.into_owned());
+        borrowed == owned && borrowed_c == owned_c && borrowed_c.contains("\u{1b}[")
     }) {
         Some(b) => r_bool(b),
         None => PANIC,
